@@ -3,6 +3,7 @@ package main
 import (
 	"go/token"
 	"go/types"
+	"regexp"
 
 	"golang.org/x/tools/go/ssa"
 )
@@ -163,4 +164,8 @@ func constIntFromConstant(k *types.Const) (int64, bool) {
 func isSliceType(t types.Type) bool {
 	_, ok := t.Underlying().(*types.Slice)
 	return ok
+}
+
+func regexp_MustAs0() *regexp.Regexp {
+	return regexp.MustCompile(`geom\.\(Geometry\)\.MustAs([A-Za-z]+)\(\$0\)`)
 }
